@@ -751,6 +751,9 @@ func scenConsume(s *Sim) {
 			s.Violf("C14/fetch-gauge/nonzero-after-close", "BufferedFetchRecords=%d BufferedFetchBytes=%d after Close of %s", n, b, c)
 		}
 	}
+	// hooks of records discarded by Close may be dispatched by a goroutine
+	// that outlives the Close call by a moment
+	time.Sleep(2 * time.Second)
 	orc.judge(consumers)
 	admin.Close()
 }
